@@ -187,7 +187,7 @@ func init() {
 		if n < 0 {
 			panic(targetPanic{Iface{t: types.Typ[types.String], v: "strings: negative Repeat count"}})
 		}
-		if n*int64(l) > 1<<22 {
+		if _, concrete := args[0].(string); n*int64(l) > 1<<22 && !(concrete && n*int64(l) <= 1<<25) {
 			ip.ex.endPath("unsupported", "strings.Repeat result beyond the engine's materialisation limit")
 		}
 		if cnt.IsConst() {
@@ -300,7 +300,11 @@ func init() {
 		if f.IsConst() && fm.IsConst() && prec.IsConst() && bs.IsConst() {
 			return strconv.FormatFloat(f64of(f.k), byte(fm.k), int(prec.ConstInt()), int(bs.ConstInt()))
 		}
-		// injective for a fixed format: shortest round-trip digits identify the value
+		// injective for a fixed format: shortest round-trip digits identify the value; with
+		// bitSize 32 the value is rounded to float32 first, so that is the identifying value
+		if bs.IsConst() && bs.ConstInt() == 32 {
+			return opaqueStr("FormatFloat32", ip.ts.F64to32(f), fm, prec)
+		}
 		return opaqueStr("FormatFloat", f, fm, prec, bs)
 	})
 	reg("strconv.ParseFloat", func(ip *Interp, fr *frame, args []Value) Value {
@@ -465,6 +469,66 @@ func init() {
 			return nil
 		})
 	}
+	// sync.Map: a concurrency-safe map; modelled as an engine map per receiver (stores are
+	// synchronised by definition, so the write-set monitor does not count them)
+	smap := func(ip *Interp, recv Value) *MapV {
+		p := recv.(*Value)
+		if ip.syncMaps == nil {
+			ip.syncMaps = map[*Value]*MapV{}
+		}
+		m, ok := ip.syncMaps[p]
+		if !ok {
+			ip.nextMapID++
+			m = &MapV{kt: types.NewInterfaceType(nil, nil), id: ip.nextMapID}
+			ip.syncMaps[p] = m
+		}
+		return m
+	}
+	reg("(*sync.Map).Load", func(ip *Interp, fr *frame, args []Value) Value {
+		if e := ip.mapFind(smap(ip, args[0]), args[1]); e != nil {
+			return Tuple{e.v, tTrue}
+		}
+		return Tuple{Iface{}, tFalse}
+	})
+	reg("(*sync.Map).Store", func(ip *Interp, fr *frame, args []Value) Value {
+		m := smap(ip, args[0])
+		if e := ip.mapFind(m, args[1]); e != nil {
+			e.v = args[2]
+		} else {
+			m.entries = append(m.entries, &mapEntry{k: args[1], v: args[2]})
+		}
+		return nil
+	})
+	reg("(*sync.Map).LoadOrStore", func(ip *Interp, fr *frame, args []Value) Value {
+		m := smap(ip, args[0])
+		if e := ip.mapFind(m, args[1]); e != nil {
+			return Tuple{e.v, tTrue}
+		}
+		m.entries = append(m.entries, &mapEntry{k: args[1], v: args[2]})
+		return Tuple{args[2], tFalse}
+	})
+	reg("(*sync.Map).Delete", func(ip *Interp, fr *frame, args []Value) Value {
+		m := smap(ip, args[0])
+		if e := ip.mapFind(m, args[1]); e != nil {
+			for i, c := range m.entries {
+				if c == e {
+					m.entries = append(append([]*mapEntry{}, m.entries[:i]...), m.entries[i+1:]...)
+					break
+				}
+			}
+		}
+		return nil
+	})
+	reg("(*sync.Map).Range", func(ip *Interp, fr *frame, args []Value) Value {
+		m := smap(ip, args[0])
+		for _, e := range append([]*mapEntry{}, m.entries...) {
+			r := ip.call(fr, token.NoPos, args[1], []Value{e.k, e.v})
+			if !ip.ex.Branch(asTerm(r)) {
+				break
+			}
+		}
+		return nil
+	})
 	reg("(*sync.Once).Do", func(ip *Interp, fr *frame, args []Value) Value {
 		p := args[0].(*Value)
 		st := (*p).(Struct)
